@@ -1,7 +1,8 @@
 SPECIFICATION Spec
 INVARIANT SequentialResults
+PROPERTY Pure
 CONSTANTS
   NProc = 2
-  AllowWrite = TRUE
-  AllowAlias = FALSE
+  AllowWrite = FALSE
+  AllowAlias = TRUE
   MaxCalls = 2
